@@ -2129,6 +2129,11 @@ namespace bloch::runtime {
         }
         if (auto lit = dynamic_cast<LiteralExpression*>(e)) {
             Value v;
+            auto outOfRange = [&](const char* kind) {
+                return BlochError(ErrorCategory::Runtime, lit->line, lit->column,
+                                  std::string(kind) + " literal '" + lit->value +
+                                      "' is out of range");
+            };
             if (lit->literalType == "bit") {
                 v.type = Value::Type::Bit;
                 v.bitValue = std::stoi(lit->value);
@@ -2142,12 +2147,16 @@ namespace bloch::runtime {
                     text.pop_back();
                 try {
                     v.longValue = std::stoll(text);
-                } catch (...) {
-                    v.longValue = 0;
+                } catch (const std::exception&) {
+                    throw outOfRange("long");
                 }
             } else if (lit->literalType == "float") {
                 v.type = Value::Type::Float;
-                v.floatValue = std::stof(lit->value);
+                try {
+                    v.floatValue = std::stof(lit->value);
+                } catch (const std::exception&) {
+                    throw outOfRange("float");
+                }
             } else if (lit->literalType == "string") {
                 v.type = Value::Type::String;
                 if (lit->value.size() >= 2)
@@ -2162,7 +2171,11 @@ namespace bloch::runtime {
                     v.charValue = '\0';
             } else {
                 v.type = Value::Type::Int;
-                v.intValue = std::stoi(lit->value);
+                try {
+                    v.intValue = std::stoi(lit->value);
+                } catch (const std::exception&) {
+                    throw outOfRange("int");
+                }
             }
             return v;
         } else if (auto paren = dynamic_cast<ParenthesizedExpression*>(e)) {
